@@ -68,6 +68,13 @@ Theorem C07_one_node_per_concept : forall es g g' evs, concepts_seq es g = Some 
 Proof. exact concepts_seq_nodes. Qed.
 Print Assumptions C07_one_node_per_concept.
 
+(* what is annotated is a Source / Operation of the expression, with the type
+   (output type) that expression node carries *)
+Theorem C07_annotated_are_leaves : forall es g g' evs, concepts_seq es g = Some (g', evs) ->
+  forall v, In v evs -> exists e l, In e es /\ In l (cleaves e) /\ ev_of_leaf v l.
+Proof. exact concepts_seq_leaves. Qed.
+Print Assumptions C07_annotated_are_leaves.
+
 (* ---- every insertion history, every supertype enumeration ---- *)
 
 (* the annotation triples are exactly those prescribed event by event *)
